@@ -18,27 +18,50 @@ CLAIM = dict(
           "specification returns the chip's core count, per-core states (truncated to the core count), working links, "
           "largest free SDRAM/SRAM/router block, Ethernet flag, IP and nearest Ethernet chip over the full width of "
           "every field; the P2P table entry of (x, y) is read from word y/8, bits 3(y mod 8) of column block x for every "
-          "width/height up to 255; the system description contains exactly the listed chips that answer, dead chips / "
-          "dead links are the complement; the console buffer is the concatenation of `length` bytes of every block of "
-          "the chain; both software-version encodings and the router counters decode to the machine's values; every field "
-          "of the status block is unpacked from its documented position (layout half; the renaming / enum step is "
-          "validated only); the machine "
-          "model built from a description has exactly its chips, links and per-chip quantities; the generated core "
-          "reservations applying to a chip are pairwise disjoint and cover exactly its non-idle cores. Tied to the code "
-          "by running the real MachineController against a simulated machine whose reply bytes are produced by the Lean "
-          "machine specification, exact comparison with the Lean model of the decoding code, and the Lean property "
+          "width/height up to 255 and the table's keys are distinct; the system description contains exactly the listed "
+          "chips that answer, dead chips / dead links are the complement; END TO END (probe_to_machine_exact): from the "
+          "P2P table memory and the per-chip info replies of any machine state, get_system_info returns a well-formed "
+          "description, and the Machine built from it by build_machine plus the reservations of build_core_constraints "
+          "contain exactly the listed chips that answer, exactly their working links, exactly their core counts and free "
+          "SDRAM/SRAM, and reserve exactly once every working non-idle core and nothing else; SystemInfo.__contains__ "
+          "(chip / link / core / core+state), links(), cores() and build_routing_table_target_lengths report exactly the "
+          "described chips, working links, (core, state) pairs - each once - and the probed largest free router block, "
+          "also end to end on the probed description (probe_views_exact); the console buffer is the concatenation of "
+          "`length` bytes of every block of the chain; both software-version encodings and the router counters decode to "
+          "the machine's values; the 128-byte status block laid out by the specification decodes to exactly the status "
+          "record (status_block: every field from its documented position, renaming, enumeration check, version split, "
+          "name stripped of NULs) and get_processor_status reads it from sv.vcpu_base + 128 p; the machine model built "
+          "from ANY description with distinct keys inside its extent has exactly its chips, links and per-chip "
+          "quantities; the generated core reservations applying to a chip are pairwise disjoint and cover exactly its "
+          "non-idle cores. The four oracle predicates the harness evaluates on the implementation's outputs (sysinfo_ok, "
+          "dead_ok, machine_ok, reservations_ok) are proved to decide exactly these properties (set equality / all core "
+          "numbers) and to accept the model's outputs. Tied to the code by running the real MachineController against a "
+          "simulated machine whose reply bytes are produced by the Lean machine specification, exact comparison with the "
+          "Lean model of the decoding code (incl. a batch of __contains__ queries per description), and the Lean property "
           "predicates evaluated on the implementation's own outputs."),
     design="3/C14",
-    note=("Proof relative to the Lean machine specification (layout of the info word, P2P packing, vcpu block, IOBUF "
-          "header, sver reply) written from the layouts the code documents. Remote reads are byte exact by C07. Text "
-          "fields restricted to ASCII without newlines; state bytes of absent cores are valid state codes; at most 18 "
-          "core slots per chip."),
+    note=("Proved relative to the Lean machine specification (layout of the info word, P2P packing, vcpu block, IOBUF "
+          "header, sver reply) written from the layouts the code documents; only the bytes concerned are constrained "
+          "(dimension register + the 32768-byte table region; non-vacuity examples are in Props/C14.lean). Validated only "
+          "(differential correspondence, not theorems): that the Lean model is the Python code - every clause above is "
+          "about the model; the exception kinds on malformed replies; get_iobuf's text decoding (compared for ASCII "
+          "buffers only); ethernet_connected_chips is not modelled. Remote reads are byte exact by C07. OUT OF SCOPE: "
+          "UTF-8 beyond ASCII - application name, version string and IOBUF text are restricted to bytes < 128 (version "
+          "strings also without newlines) in generators, model (`UnicodeDomain` / `TextDomain`) and theorems; "
+          "multi-byte decoding is neither modelled nor proved. Other domain limits: state bytes of absent cores are "
+          "valid state codes; at most 18 core slots per chip; core numbers are naturals (a negative p is simply absent "
+          "in the code); one-byte status fields are unconstrained naturals in the model; at least one listed chip "
+          "(otherwise the code raises ValueError, sysinfo_empty)."),
     technique="Lean 4 theorems over decode model o machine specification + correspondence against a simulated machine")
 
 THEOREMS = ["consts_documented", "chipinfo_roundtrip", "p2p_roundtrip", "p2p_table_mem", "sysinfo_exact",
             "sysinfo_mem", "sysinfo_extent", "dead_chips_complement", "dead_links_complement",
             "build_machine_exact", "reservations_partition", "global_reservation_shared", "iobuf_chain",
-            "iobuf_bytes_exact", "sver_both_encodings", "status_fields_partial", "router_counters"]
+            "iobuf_bytes_exact", "sver_both_encodings", "status_fields_partial", "router_counters",
+            "status_block", "processor_status_exact", "p2p_keys_nodup", "get_system_info_exact",
+            "probe_to_machine_exact", "contains_exact", "links_cores_enumerate", "target_lengths_exact",
+            "probe_views_exact", "sysinfo_oracle_exact", "reservations_oracle_exact", "dead_oracle_exact",
+            "machine_oracle_exact", "links_cores_once"]
 
 RULE = ("cases = machine states: (system) P2P dimensions 1..12 x 1..12 and sparse 255-wide/high tables, listed / "
         "unlisted / unresponsive (silent or error-code) / ghost chips, per-chip core counts, state patterns shared by "
@@ -152,13 +175,53 @@ def derived_json(si):
         ok_shape = ok_shape and c.resource is Cores and c.reservation.step is None
         cons.append({"start": int(c.reservation.start), "stop": int(c.reservation.stop),
                      "chip": None if c.location is None else [int(c.location[0]), int(c.location[1])]})
+    qs = member_queries(si_json(si))
     return {"machine": mj, "constraints": cons, "shape_ok": bool(ok_shape),
+            "member_queries": qs, "member": member_answers(si, qs),
             "dead_chips": sorted([int(x), int(y)] for x, y in si.dead_chips()),
             "dead_links": sorted([int(x), int(y), int(l)] for x, y, l in si.dead_links()),
             "links": sorted([int(x), int(y), int(l)] for x, y, l in si.links()),
             "cores": [[int(x), int(y), int(p), int(s)] for x, y, p, s in si.cores()],
             "target_lengths": sorted([int(x), int(y), int(n)] for (x, y), n in
                                      build_routing_table_target_lengths(si).items())}
+
+
+def member_queries(sj):
+    """deterministic membership queries [kind, x, y, a, b] for a description (kind 0 chip, 1 link a, 2 core a,
+    3 core a in state b): every link, boundary core numbers and present / other states of the first chips, and
+    a 3 x 3 corner of coordinates whether described or not"""
+    qs = []
+    for ch in sj["chips"][:8]:
+        x, y, n, cs = ch["x"], ch["y"], ch["num_cores"], ch["core_states"]
+        qs.append([0, x, y, 0, 0])
+        qs += [[1, x, y, l, 0] for l in range(6)]
+        for p in sorted({0, max(n - 1, 0), n, 17, 18, 19}):
+            qs.append([2, x, y, p, 0])
+            qs += [[3, x, y, p, s] for s in sorted({cs[p] if p < len(cs) else IDLE, IDLE, RUN})]
+    for x in range(3):
+        for y in range(3):
+            qs += [[0, x, y, 0, 0], [1, x, y, 2, 0], [2, x, y, 1, 0], [3, x, y, 0, RUN]]
+    return qs
+
+
+def member_answers(si, qs):
+    from rig.links import Links
+    from rig.machine_control.consts import AppState
+    out = []
+    for k, x, y, a, b in qs:
+        try:
+            if k == 0:
+                r = (x, y) in si
+            elif k == 1:
+                r = (x, y, Links(a)) in si
+            elif k == 2:
+                r = (x, y, a) in si
+            else:
+                r = (x, y, a, AppState(b)) in si
+            out.append(bool(r))
+        except IndexError:
+            out.append("IndexError")
+    return out
 
 
 def membership_ok(si, state_chips):
@@ -305,6 +368,10 @@ def gen_direct(rng, big):
         chips.append({"x": xy[0], "y": xy[1], "num_cores": c["cores"], "core_states": c["states"][:c["cores"]],
                       "links": c["links"], "sdram": c["sdram"], "sram": c["sram"], "rtr": c["rtr"],
                       "eth_up": c["eth_up"], "ip": c["ip"], "eth_chip": c["eth_chip"]})
+    if chips and rng.random() < 0.06:
+        # a record with fewer states than cores: `(x, y, p, state) in si` raises IndexError for the missing ones
+        ch = chips[rng.randrange(min(len(chips), 8))]
+        ch["core_states"] = ch["core_states"][:max(0, len(ch["core_states"]) - rng.randrange(1, 4))]
     return {"kind": "direct", "width": w, "height": h, "chips": chips}
 
 
@@ -541,6 +608,7 @@ def eval_cases(ctx, cases):
 def add_derived_reqs(L, reqs, slots, i, sj, d):
     reqs.append(L("build_machine", **sj)); slots.append((i, "model_machine"))
     reqs.append(L("core_constraints", **sj)); slots.append((i, "model_constraints"))
+    reqs.append(L("contains", sysinfo=sj, queries=d["member_queries"])); slots.append((i, "model_member"))
     reqs.append(L("dead_ok", sysinfo=sj, dead_chips=d["dead_chips"], dead_links=d["dead_links"]))
     slots.append((i, "oracle_dead"))
     reqs.append(L("machine_ok", sysinfo=sj, got=d["machine"])); slots.append((i, "oracle_machine"))
@@ -581,6 +649,7 @@ def judge_derived(ctx, c, w, desc):
     sj = w["impl"]["ok"]["sysinfo"]
     cmp(ctx, "build_machine", d["machine"], sort_machine(w["model_machine"]), desc)
     cmp(ctx, "core_constraints", d["constraints"], w["model_constraints"], desc)
+    cmp(ctx, "contains", d["member"], w["model_member"], desc)
     if not d["shape_ok"]:
         ctx.violation("machine-model-wrong", "resources / constraint objects have an unexpected shape", desc)
     if w["oracle_dead"] is not True:
@@ -601,6 +670,7 @@ def judge_derived(ctx, c, w, desc):
     if d["links"] != want_links or d["cores"] != want_cores or d["target_lengths"] != want_tl:
         ctx.violation("system-info-wrong", "links()/cores()/target lengths differ from the records", desc)
     n_busy = sum(1 for ch in sj["chips"] for p, s in enumerate(ch["core_states"]) if p > 0 and s != IDLE)
+    ctx.tag("contains_indexerror" if "IndexError" in d["member"] else "contains_total")
     ctx.tag("constraints_global_%d" % min(3, sum(1 for r in d["constraints"] if r["chip"] is None)),
             "constraints_local_%s" % ("some" if any(r["chip"] for r in d["constraints"]) else "none"),
             "exceptions_%s" % ("some" if d["machine"]["exceptions"] else "none"))
